@@ -666,6 +666,7 @@ pub fn op_name(op: &R1Op) -> &'static str {
         R1Op::Double(_) => "double_in_place",
         R1Op::Select(..) => "conditionally_select",
         R1Op::ScalarMul(..) => "scalar_mul_le",
+        R1Op::ScalarMulBits(..) => "scalar_mul_le_long",
         R1Op::IsEq(..) => "is_eq",
         R1Op::IsZero(_) => "is_zero",
         R1Op::EnforceEq(..) => "enforce_equal",
